@@ -320,6 +320,13 @@ func opLane(w *World, op *Op) {
 		// and gas are those of the first message, or the sums
 		rr := newRng(uint64(op.Ref) + 23)
 		n := 3 + rr.IntN(4)
+		if rr.IntN(3) > 0 {
+			// room for all of them under the gas limit of the first
+			e.Gas = 400000
+			ethTx = SignEth(wl, e)
+			ethMsg = EthMsg(ethTx, wl.Addr)
+			fullFee = new(big.Int).Mul(ethTx.GasFeeCap(), new(big.Int).SetUint64(ethTx.Gas()))
+		}
 		same := rr.IntN(3) == 0
 		var extra []sdk.Msg
 		for i := 1; i < n; i++ {
